@@ -345,7 +345,7 @@ func runPropertyEnum[C any](t *testing.T, prop string, enum []C, gen func(*rapid
 					if raceSig(o2.Sig) && !raceSig(o.Sig) {
 						o = o2
 					}
-				} else if o2.Digest != o.Digest || o2.Sig != o.Sig { // the violation text may hold addresses; the signature may not
+				} else if (o2.Digest != o.Digest || o2.Sig != o.Sig) && st.Nondet == "" { // the violation text may hold addresses; the signature may not
 					cj, _ := json.Marshal(c)
 					st.Nondet = fmt.Sprintf("case %d gave digest %s then %s, signature %q then %q; CASE=%s\nfirst: %s\nsecond: %s", caseNo, o.Digest, o2.Digest, o.Sig, o2.Sig, cj, o.Violation, o2.Violation)
 				}
@@ -425,7 +425,7 @@ func runPropertyEnum[C any](t *testing.T, prop string, enum []C, gen func(*rapid
 			}
 			handle(c, func(string) { stopped = true })
 			st.EnumDone++
-			if stopped || st.Nondet != "" {
+			if stopped {
 				t.Fail()
 				return
 			}
@@ -447,8 +447,11 @@ func runPropertyEnum[C any](t *testing.T, prop string, enum []C, gen func(*rapid
 		if *flagMaxCase > 0 && st.Cases >= *flagMaxCase {
 			break
 		}
-		if st.Nondet != "" || st.HarnessErr != "" {
+		if st.HarnessErr != "" {
 			break
+		}
+		if st.Nondet != "" && time.Since(start) > 20*time.Second {
+			break // keep looking for a reproducible violation for a while, then give up
 		}
 		curRapidSeed = splitmix(base + uint64(b)*0x100000001b3)
 		_ = flag.Set("rapid.seed", fmt.Sprint(curRapidSeed))
